@@ -61,3 +61,8 @@ import Ufw.Tie.VarintLoops.Wrappers
 #print axioms Ufw.Tie.VarintLoops.gen_varint_u32_length
 #print axioms Ufw.Tie.VarintLoops.gen_varint_s32_length
 #print axioms Ufw.Tie.VarintLoops.gen_varint_s64_length
+#print axioms Ufw.Tie.VarintLoops.ofNat32_nonneg
+#print axioms Ufw.Tie.VarintLoops.tailRc_neg
+#print axioms Ufw.Tie.VarintLoops.sourceLoop_ok_le
+#print axioms Ufw.Tie.VarintLoops.gen_varint_u64_from_source
+#print axioms Ufw.Tie.VarintLoops.gen_varint_u32_from_source
